@@ -4,7 +4,7 @@ from spec import descriptors as D
 from ..bits import BV, lit
 from ..interp import State
 from ..values import Array, Enum, Ptr, Ref, Struct
-from .common import adt, arg_obj, bv, eval_value, fn_site, inner, same, sl
+from .common import is_call_of, adt, arg_obj, bv, eval_value, fn_site, inner, same, sl
 
 LEVEL = 'proof'
 GDT = 'structures::gdt::'
@@ -146,4 +146,5 @@ def run(chk):
                 else:
                     chk.ob('tss-new', '%s zeroed' % f['name'], eval_value(v, {}) == 0, 'found %r' % (v,))
     chk.guard('layout', 'layouts', layouts)
+    chk.guard('tss-new', 'Default', lambda: is_call_of(chk, chk.I, 'tss-new', '<structures::tss::TaskStateSegment as core::default::Default>::default', 'structures::tss::TaskStateSegment::new', 'TaskStateSegment::default() is new()'))
     chk.floor('obligations', len(chk.obs), 40)
